@@ -141,6 +141,10 @@ func genExchange(t *core.Tape, maxMsgs int, small, oversize bool) *Scenario {
 	}
 	if t.Bool(1, 4, "fail") {
 		p.HErr = genErrPlan(t, sc.Notes, p.bin)
+		// (one name under two map keys is merged in map order, which differs
+		// from one delivery of the same bytes to the next: not for a check that
+		// compares deliveries byte by byte)
+		p.HErr.RawMeta = nil
 		if small {
 			p.HErr.Msg, p.HErr.Details, p.HErr.Meta = "no", nil, nil
 		}
